@@ -34,6 +34,9 @@ pub enum Ev {
     /// the transport's destructor. Until that destructor has returned the connection exists (the
     /// socket is open, the buffers are allocated): it is alive, and holds its slot.
     CloseSlow(u8),
+    /// one poll of the limited stream during which another thread closes held channel i right
+    /// before the listener hands over its second arrival of that poll
+    PollClosing(u8),
 }
 
 thread_local! {
@@ -47,6 +50,8 @@ struct Obs {
     log: Vec<String>,
     dequeued: Vec<u32>,
     dropped: Vec<u32>,
+    /// (seq, channels with that key alive at the moment it was taken from the listener)
+    deq_alive: Vec<(u32, u32)>,
 }
 
 /// The key type the limiter sees: equality distinguishes the keys, the hash does not (every
@@ -118,14 +123,32 @@ type Chan = BaseChannel<u32, u32, KeyedTransport>;
 struct Listener {
     q: Rc<RefCell<VecDeque<Chan>>>,
     obs: Rc<RefCell<Obs>>,
+    /// the model's alive set (seq, key), read at the moment an arrival is handed over
+    alive: Rc<RefCell<Vec<(u32, u8)>>>,
+    /// how often the listener has been asked within the current poll of the limited stream
+    asked: Rc<std::cell::Cell<u32>>,
+    /// runs once, right before the listener answers the second time within one poll (another
+    /// thread closing a channel while the limiter is draining the listener)
+    between: Rc<RefCell<Option<Rc<dyn Fn()>>>>,
 }
 impl Stream for Listener {
     type Item = Chan;
     fn poll_next(self: Pin<&mut Self>, _: &mut Context<'_>) -> Poll<Option<Chan>> {
-        match self.q.borrow_mut().pop_front() {
+        self.asked.set(self.asked.get() + 1);
+        if self.asked.get() == 2 {
+            let f = self.between.borrow_mut().take();
+            if let Some(f) = f {
+                f();
+            }
+        }
+        let popped = self.q.borrow_mut().pop_front();
+        match popped {
             Some(c) => {
-                let seq = c.get_ref().seq;
-                self.obs.borrow_mut().dequeued.push(seq);
+                let (seq, key) = (c.get_ref().seq, c.get_ref().key);
+                let cnt = self.alive.borrow().iter().filter(|(_, k)| *k == key).count() as u32;
+                let mut o = self.obs.borrow_mut();
+                o.dequeued.push(seq);
+                o.deq_alive.push((seq, cnt));
                 Poll::Ready(Some(c))
             }
             None => Poll::Pending,
@@ -167,9 +190,16 @@ fn replay_inner(n: u32, hist: &[Ev]) -> Outcome {
     use tarpc::server::Channel;
     let obs = Rc::new(RefCell::new(Obs::default()));
     let q: Rc<RefCell<VecDeque<Chan>>> = Rc::new(RefCell::new(VecDeque::new()));
+    // the model: keys of alive yielded channels
+    let alive: Rc<RefCell<Vec<(u32, u8)>>> = Rc::new(RefCell::new(Vec::new()));
+    let asked = Rc::new(std::cell::Cell::new(0u32));
+    let between: Rc<RefCell<Option<Rc<dyn Fn()>>>> = Rc::new(RefCell::new(None));
     let listener = Listener {
         q: q.clone(),
         obs: obs.clone(),
+        alive: alive.clone(),
+        asked: asked.clone(),
+        between: between.clone(),
     };
     let filter = listener.max_channels_per_key(n, |c: &Chan| CKey(c.transport().key));
     let filter = Rc::new(RefCell::new(Box::pin(filter)));
@@ -181,13 +211,12 @@ fn replay_inner(n: u32, hist: &[Ev]) -> Outcome {
     let mut violation: Option<String> = None;
     let mut redundant = false;
     let mut nontrivial = false;
-    // the model: keys of alive yielded channels
-    let alive: Rc<RefCell<Vec<(u32, u8)>>> = Rc::new(RefCell::new(Vec::new()));
     // keys of queued arrivals by seq
     let keys: Rc<RefCell<Vec<u8>>> = Rc::new(RefCell::new(Vec::new()));
 
     // one poll of the limited stream + oracle
     let do_poll = {
+        let asked = asked.clone();
         let obs = obs.clone();
         let filter = filter.clone();
         let held = held.clone();
@@ -197,6 +226,7 @@ fn replay_inner(n: u32, hist: &[Ev]) -> Outcome {
             let waker = futures::task::noop_waker();
             let mut cx = Context::from_waker(&waker);
             let d0 = obs.borrow().dequeued.len();
+            asked.set(0);
             let r = filter.borrow_mut().as_mut().poll_next(&mut cx);
             let deq: Vec<u32> = obs.borrow().dequeued[d0..].to_vec();
             let yielded_seq = match &r {
@@ -206,7 +236,9 @@ fn replay_inner(n: u32, hist: &[Ev]) -> Outcome {
             let mut verdict = None;
             for s in &deq {
                 let k = keys.borrow()[*s as usize];
-                let cnt = alive.borrow().iter().filter(|(_, ak)| *ak == k).count() as u32;
+                // (counted when the listener handed it over: a channel may be closed by another
+                // thread while the limiter is still draining the listener in the same poll)
+                let cnt = obs.borrow().deq_alive.iter().rev().find(|(q, _)| q == s).map(|x| x.1).unwrap_or_else(|| alive.borrow().iter().filter(|(_, ak)| *ak == k).count() as u32);
                 let should_admit = cnt < n;
                 let admitted = yielded_seq == Some(*s);
                 let shed = obs.borrow().dropped.contains(s);
@@ -274,6 +306,34 @@ fn replay_inner(n: u32, hist: &[Ev]) -> Outcome {
                 let mut cx = Context::from_waker(&waker);
                 let r = stream.as_mut().poll_next(&mut cx);
                 obs.borrow_mut().log.push(format!("  held channel polled after its peer hung up -> {}", match r { Poll::Ready(None) => "ended", Poll::Ready(Some(())) => "item", Poll::Pending => "pending" }));
+            }
+            Ev::PollClosing(i) => {
+                let fired = Rc::new(std::cell::Cell::new(false));
+                {
+                    let (held2, alive2, fired2, obs2) = (held.clone(), alive.clone(), fired.clone(), obs.clone());
+                    *between.borrow_mut() = Some(Rc::new(move || {
+                        let item = held2.borrow_mut().get_mut(i as usize).and_then(|x| x.take());
+                        if let Some((seq, _k, ch)) = item {
+                            fired2.set(true);
+                            obs2.borrow_mut().log.push(format!("  [another thread closes #{seq} while the limiter drains the listener]"));
+                            alive2.borrow_mut().retain(|(s, _)| *s != seq);
+                            drop(ch);
+                        }
+                    }));
+                }
+                let v = do_poll(n);
+                *between.borrow_mut() = None;
+                if let Some(v) = v {
+                    violation.get_or_insert(v);
+                }
+                if !fired.get() {
+                    // the listener was asked only once: the same as a plain Poll
+                    if last {
+                        redundant = true;
+                    }
+                } else {
+                    nontrivial = true;
+                }
             }
             Ev::CloseSlow(i) => {
                 let item = held.borrow_mut()[i as usize].take();
@@ -365,6 +425,7 @@ fn replay_inner(n: u32, hist: &[Ev]) -> Outcome {
             enabled.push(Ev::Close(i as u8));
             enabled.push(Ev::CloseNested(i as u8));
             enabled.push(Ev::CloseSlow(i as u8));
+            enabled.push(Ev::PollClosing(i as u8));
             if !*done {
                 enabled.push(Ev::HangUp(i as u8));
             }
@@ -399,7 +460,7 @@ fn replay_inner(n: u32, hist: &[Ev]) -> Outcome {
 
 pub fn run_c13(tier: Tier) -> i32 {
     let start = Instant::now();
-    let depth = if tier == Tier::Quick { 9 } else { 11 };
+    let depth = if tier == Tier::Quick { 8 } else { 10 };
     let cap = std::time::Duration::from_secs(if tier == Tier::Quick { 50 } else { 1500 });
     let known = load_known("C13");
     let mut total_hist = 0u64;
@@ -534,7 +595,7 @@ pub fn run_c13(tier: Tier) -> i32 {
             "traces_validated_against_impl": total_hist,
             "evaluations": total_hist,
             "distinct_nontrivial": nontrivial,
-            "rule": "breadth-first over ALL event histories up to the depth (alphabet: Arrive(key a), Arrive(key b) - two keys that are unequal but hash alike -, Poll of the limited stream, Close(i) of a held channel, CloseSlow(i) = close of a channel whose transport runs one listener poll inside its destructor (until the destructor returns the channel is alive), CloseNested(i) = close with one listener poll at the yield point inside the tracker's drop, HangUp(i) = the peer of held channel i ends its stream and the application polls the channel once without dropping it); every history is replayed from scratch on a fresh real MaxChannelsPerKey and compared with a per-key counter at every dequeue; `states` counts distinct (alive multiset, pending arrivals, shed count) fingerprints, no merging is used to prune; non-trivial = a close adjacent to a poll/arrival or a nested poll that fired",
+            "rule": "breadth-first over ALL event histories up to the depth (alphabet: Arrive(key a), Arrive(key b) - two keys that are unequal but hash alike -, Poll of the limited stream, Close(i) of a held channel, CloseSlow(i) = close of a channel whose transport runs one listener poll inside its destructor (until the destructor returns the channel is alive), PollClosing(i) = a poll during which another thread closes held channel i right before the listener hands over its second arrival, CloseNested(i) = close with one listener poll at the yield point inside the tracker's drop, HangUp(i) = the peer of held channel i ends its stream and the application polls the channel once without dropping it); every history is replayed from scratch on a fresh real MaxChannelsPerKey and compared with a per-key counter at every dequeue; `states` counts distinct (alive multiset, pending arrivals, shed count) fingerprints, no merging is used to prune; non-trivial = a close adjacent to a poll/arrival or a nested poll that fired",
             "samples": samples,
             "exhaustive": !cut && machinery.is_empty(),
             "depth_completed": {"n1": completed_depth[0], "n2": completed_depth[1], "n_u32_max": completed_depth[2]},
